@@ -22,6 +22,8 @@ pub enum Op {
     TreeLeaf,
     /// `tree!(arena, cur[p] => { v1, v2 => { v3 } })`
     TreeNest(usize),
+    /// `arena = deserialize(serialize(arena))` through serde_json (engine built with `deser`)
+    RoundTrip,
 }
 
 impl Op {
@@ -38,6 +40,7 @@ impl Op {
             Op::Reserve(_) => "reserve",
             Op::TreeLeaf => "tree_leaf",
             Op::TreeNest(_) => "tree_nest",
+            Op::RoundTrip => "serde_round_trip",
         }
     }
     /// number of nodes this op allocates when it succeeds
@@ -62,6 +65,7 @@ impl Op {
             Op::Reserve(k) => format!("reserve {}", k),
             Op::TreeLeaf => "tree_leaf".into(),
             Op::TreeNest(p) => format!("tree_nest {}", p + 1),
+            Op::RoundTrip => "serde_round_trip".into(),
         }
     }
     pub fn parse(s: &str) -> Option<Op> {
@@ -85,6 +89,7 @@ impl Op {
             "reserve" => Op::Reserve(n(1)?),
             "tree_leaf" => Op::TreeLeaf,
             "tree_nest" => Op::TreeNest(slot(1)?),
+            "serde_round_trip" => Op::RoundTrip,
             _ => return None,
         })
     }
@@ -114,6 +119,7 @@ impl Op {
                 v(1),
                 v(2)
             ),
+            Op::RoundTrip => "arena = serde_json::from_str(&serde_json::to_string(&arena).unwrap()).unwrap();".into(),
         }
     }
 }
@@ -267,6 +273,7 @@ pub fn apply(arena: &mut Arena<Payload>, cur: &[NodeId], op: Op, vals: &[u8]) ->
         Op::Reserve(k) => unit(guarded(|| arena.reserve(k))),
         Op::TreeLeaf => tree_leaf(arena, vals),
         Op::TreeNest(p) => tree_nest(arena, cur[p], vals),
+        Op::RoundTrip => round_trip(arena),
     }
 }
 
@@ -297,4 +304,24 @@ fn tree_leaf(_: &mut Arena<Payload>, _: &[u8]) -> Outcome {
 #[cfg(not(feature = "it-macros"))]
 fn tree_nest(_: &mut Arena<Payload>, _: NodeId, _: &[u8]) -> Outcome {
     Outcome::Panic("engine built without the macros feature".into())
+}
+
+#[cfg(feature = "it-deser")]
+fn round_trip(arena: &mut Arena<Payload>) -> Outcome {
+    let r = guarded(|| -> Result<Arena<Payload>, String> {
+        let s = serde_json::to_string(&*arena).map_err(|e| format!("serialize: {e}"))?;
+        serde_json::from_str(&s).map_err(|e| format!("deserialize: {e}"))
+    });
+    match r {
+        Ok(Ok(copy)) => {
+            *arena = copy;
+            Outcome::Unit
+        }
+        Ok(Err(e)) => Outcome::Err("RoundTripFailed".into(), e),
+        Err(m) => Outcome::Panic(m),
+    }
+}
+#[cfg(not(feature = "it-deser"))]
+fn round_trip(_: &mut Arena<Payload>) -> Outcome {
+    Outcome::Unit
 }
